@@ -77,6 +77,12 @@ func main() {
 		opPPPipe(r, *n, *tier)
 	case "progs":
 		opProgs(r, *n, *tier, *seed)
+	case "step":
+		opStep(r, *n, *tier)
+	case "sigops":
+		opSigops(r, *n, *tier)
+	case "rlines":
+		opRlines(r, *n, *tier)
 	case "replay":
 		opReplay()
 	default:
